@@ -16,7 +16,9 @@ import (
 
 var kindNames = []string{"bool", "int", "int8", "int16", "int32", "int64", "uint", "uint8", "uint16", "uint32", "uint64",
 	"float32", "float64", "string", "bytes"}
-var valueNames = []string{"three", "negthree", "twohalf", "n300", "zero", "abc", "s12", "s0", "empty", "sn12", "sn0", "unset", "huge", "nan"}
+var valueNames = []string{"three", "negthree", "twohalf", "n300", "zero", "abc", "s12", "s0", "empty", "sn12", "sn0", "unset", "huge", "nan",
+	"big", "inf", "neginf"}
+var convFmts = []string{DefaultCf, "%.2f", "%.3e"}
 var namePool = []string{"b", "m1", "zed", "Aa", "conv", "a_b", "f9", "yy", "lengthy", "ins", "Print", "q"}
 
 func goValJSON(g GoVal) map[string]any {
@@ -72,8 +74,12 @@ type callLog struct {
 }
 
 // Record: n traces; each is one interpreter run over a Funcs table of 2-5
-// recording functions (names in random alphabetical positions, an AWK-defined
-// function in between) and a program making 3-6 calls; one event per call.
+// recording functions (names in random alphabetical positions) and a program
+// that sets CONVFMT to one of the model's settings, defines an AWK function --
+// in half of the traces under the name of one of the table's entries, which
+// it thereby shadows and which is then not called -- and makes 3-6 calls,
+// printing the AWK string conversion of every argument before each call;
+// one event per call.
 func Record(seed int64, n int, out string) (int, error) {
 	r := rand.New(rand.NewSource(seed))
 	f, err := os.Create(out)
@@ -110,6 +116,16 @@ func Record(seed int64, n int, out string) (int, error) {
 		}
 		errName := names[nfun-1]
 		sort.Strings(names)
+		// the AWK function of the program: its own name, or the name of a table entry (first, middle or last in
+		// name order, as it comes) that is not the one allowed to return an error
+		shadow := "none"
+		if r.Intn(2) == 0 {
+			cand := names[r.Intn(len(names))]
+			if sigs[cand].Err != "err" {
+				shadow = cand
+			}
+		}
+		cf := convFmts[r.Intn(len(convFmts))]
 		ncalls := 3 + r.Intn(4)
 		type call struct {
 			name string
@@ -117,10 +133,20 @@ func Record(seed int64, n int, out string) (int, error) {
 		}
 		var calls []call
 		var sb strings.Builder
-		sb.WriteString("function mid(x) { return x }\n{\n")
+		if cf != DefaultCf {
+			fmt.Fprintf(&sb, "BEGIN { CONVFMT = %q }\n", cf)
+		}
+		if shadow != "none" {
+			fmt.Fprintf(&sb, "function %s(x) { return x }\n{\n", shadow)
+		} else {
+			sb.WriteString("function mid(x) { return x }\n{\n")
+		}
 		for c := 0; c < ncalls; c++ {
 			name := names[r.Intn(len(names))]
 			if sigs[name].Err == "err" && c != ncalls-1 {
+				continue
+			}
+			if name == shadow {
 				continue
 			}
 			s := sigs[name]
@@ -137,6 +163,9 @@ func Record(seed int64, n int, out string) (int, error) {
 				srcs = append(srcs, valueSrc[v])
 			}
 			calls = append(calls, cl)
+			for _, a := range srcs {
+				fmt.Fprintf(&sb, "  print \"C:\" ((%s) \"\")\n", a)
+			}
 			fmt.Fprintf(&sb, "  r = %s(%s); print \"R:\" r\n", name, strings.Join(srcs, ", "))
 		}
 		_ = errName
@@ -167,9 +196,21 @@ func Record(seed int64, n int, out string) (int, error) {
 		if outb.Len() == 0 {
 			lines = nil
 		}
+		li := 0 // next unread output line
 		for ci, cl := range calls {
 			ev := map[string]any{"ev": "step", "op": "call", "sig": sigJSON(sigs[cl.name]), "args": append([]string{}, cl.args...),
-				"called": true, "src": src, "o": "missing", "got": "", "recv": []any{}, "printed": ""}
+				"called": true, "src": src, "o": "missing", "got": "", "recv": []any{}, "printed": "", "cf": cf, "shadow": shadow}
+			awk := []string{}
+			for range cl.args {
+				if li < len(lines) && strings.HasPrefix(lines[li], "C:") {
+					awk = append(awk, lines[li][2:])
+					li++
+				}
+			}
+			for len(awk) < len(cl.args) {
+				awk = append(awk, "<missing>")
+			}
+			ev["awk"] = awk
 			if cl.args == nil {
 				ev["args"] = []string{}
 			}
@@ -186,9 +227,10 @@ func Record(seed int64, n int, out string) (int, error) {
 					rv = append(rv, goValJSON(g))
 				}
 				ev["recv"] = rv
-				if ci < len(lines) && strings.HasPrefix(lines[ci], "R:") {
+				if li < len(lines) && strings.HasPrefix(lines[li], "R:") {
 					ev["o"] = "ok"
-					ev["printed"] = lines[ci][2:]
+					ev["printed"] = lines[li][2:]
+					li++
 				} else if xerr != nil && ci == len(log)-1 {
 					ev["o"] = "abort"
 					ev["own"] = xerr == ErrSentinel
